@@ -349,6 +349,25 @@ def check_C06(c):
         if not (same and none_yield and ctx_same):
             c.violation("implementation-vs-property", "`x %s= e` does not behave as `x = x %s e`" % (meta[i][0], meta[i][0]),
                         {"requests": reqs[2 * i: 2 * i + 8], "implementation": [impl[2 * (i + k) + 1] for k in range(4)]})
+    # the same assignment written twice as the two operands of one operator (or as two list items) is performed twice, in
+    # order — exactly like the two statements one after the other (metamorphic, implementation only; seeded change
+    # C06-equal-operands-evaluated-once executed structurally equal operands once)
+    treqs, tmeta = [], []
+    for op in ["=", "+=", "-=", "*=", "<<=", "|="]:
+        for rhs in ["1", "1.0", "2", "x", "x + 1", "y", "(y = 5)"]:
+            for wrap in ["(%s) == (%s)", "(%s) != (%s)", "[(%s), (%s)]", "(%s) == nil && (%s) == nil", "(%s) == nil ? (%s) : 0"]:
+                a_ = "x %s %s" % (op, rhs)
+                for text in (wrap % (a_, a_) + "; [x, y]", "%s; %s; [x, y]" % (a_, a_)):
+                    treqs.append(ctx_line("c", [("x", "v", n(3)), ("y", "v", n(2))]))
+                    treqs.append(exec_line("c", text))
+                tmeta.append((a_, wrap))
+    timpl, tmodel = both(treqs, timeout=600)
+    c.add_stream(Stream("one assignment written twice as the operands of one operator ≡ written as two statements", treqs, timpl, tmodel))
+    for k, (a_, wrap) in enumerate(tmeta):
+        o1, o2 = timpl[4 * k + 1], timpl[4 * k + 3]
+        if o1.split("\t")[1:] != o2.split("\t")[1:]:
+            c.violation("implementation-vs-property", "`%s` written twice in `%s` does not leave the context two such statements leave" % (a_, wrap),
+                        {"requests": treqs[4 * k: 4 * k + 4], "implementation": [o1, o2]})
     # statement sequences: program order, value of last, None cases, non-name targets, failing statement at every position
     seqs = []
     names = ["x", "y", "z"]
@@ -357,8 +376,14 @@ def check_C06(c):
         k = rng.below(5)
         stmts = []
         for _ in range(k):
-            r = rng.below(10)
-            if r < 5:
+            r = rng.below(11)
+            if r == 10:
+                # the *same* assignment written twice as the two operands of one operator (or twice in a list): both are
+                # performed, in order (seeded change C06-equal-operands-evaluated-once executed equal operands once)
+                a_ = "%s %s %s" % (rng.choice(names), rng.choice(["=", "+=", "-=", "*=", "<<="]), rng.choice(["1", "1.0", "x", "x + 1", "2"]))
+                b_ = a_ if rng.chance(3, 4) else a_.replace("1", "2")
+                stmts.append(rng.choice(["(%s) == (%s)", "(%s) != (%s)", "[(%s), (%s)]", "(%s) + (%s)", "(%s) == nil && (%s) == nil"]) % (a_, b_))
+            elif r < 5:
                 stmts.append("%s %s %s" % (rng.choice(names), rng.choice(["=", "=", "+=", "-=", "*=", "|=", "<<="]), rng.choice(exprs)))
             elif r < 8:
                 stmts.append(rng.choice(exprs))
